@@ -20,4 +20,8 @@ def reverseDelta (d : DeltaD) : DeltaD :=
       { tag := if o.tag == "delete" then "insert" else if o.tag == "insert" then "delete" else o.tag,
         i1 := o.j1, i2 := o.j2, j1 := o.i1, j2 := o.i2, oldValues := o.newValues, newValues := o.oldValues }) }
 
+/-- `base - delta`: a delta that was not built with `bidirectional=True` refuses (ValueError) -/
+def subDelta (bidir : Bool) (d : DeltaD) (base : PyVal) : Except String AState :=
+  if bidir then .ok (applyDelta true (reverseDelta d) base) else .error "ValueError"
+
 end Delta
